@@ -29,6 +29,20 @@ fn measure(m1: &RefMsg, reply: &RefMsg) -> Result<Gaps, String> {
     measure_with_flush_fault(m1, reply, None)
 }
 
+/// Like `measure`, on a port whose write calls block for `write_stall` and whose first read call blocks for `read_stall`
+/// before they succeed. The pacing runs from the END of the write / of the read (that is when the sign has the chunk,
+/// respectively when we have its report), so time spent inside the port does not count towards it.
+fn measure_stalled(m1: &RefMsg, reply: &RefMsg, write_stall: Option<Duration>, read_stall: Option<Duration>) -> Result<Gaps, String> {
+    STALLS.with(|s| s.set((write_stall, read_stall)));
+    let r = measure_with_flush_fault(m1, reply, None);
+    STALLS.with(|s| s.set((None, None)));
+    r
+}
+
+thread_local! {
+    static STALLS: std::cell::Cell<(Option<Duration>, Option<Duration>)> = const { std::cell::Cell::new((None, None)) };
+}
+
 /// `flush_fault`: the port's first flush() call (if the bus makes one) fails with this kind. The first message may
 /// then return an error — the pacing of what reaches the wire afterwards must hold regardless.
 fn measure_with_flush_fault(m1: &RefMsg, reply: &RefMsg, flush_fault: Option<std::io::ErrorKind>) -> Result<Gaps, String> {
@@ -36,10 +50,16 @@ fn measure_with_flush_fault(m1: &RefMsg, reply: &RefMsg, flush_fault: Option<std
     if let Some(k) = flush_fault {
         st.borrow_mut().flush_faults = vec![(0, k)];
     }
+    let (write_stall, read_stall) = STALLS.with(|s| s.get());
     let mut tape = refs::wire(reply);
     tape.extend_from_slice(SENTINEL);
     let port = InstrPort::scripted(st.clone(), FragReader::plain(tape), FragWriter::new(vec![], WriteAct::Accept(usize::MAX)));
     let mut bus = SerialSignBus::try_new(port).map_err(|e| e.to_string())?;
+    {
+        let mut s = st.borrow_mut();
+        s.write_stall = write_stall;
+        s.first_read_stall = read_stall;
+    }
     let n0 = st.borrow().log.len();
     let r = catch(|| {
         let a = bus.process_message(refs::from_ref(m1)).map(|_| ()).map_err(|e| e.to_string());
@@ -319,6 +339,36 @@ fn session(rng: &mut crate::util::Rng, rep: &mut Report) {
     }
 }
 
+/// Slow ports: the chunk's write (or the in-progress report's read) itself takes 10 / 20 / 45 / 120 ms.
+fn stalled_trials(trials: usize, rep: &mut Report) {
+    let chunk = Cell { name: "send/SendData[16] on a port whose writes block".into(), m1: RefMsg::Data { offset: 32, data: vec![0x5A; 16] }, reply: RefMsg::Report(3, S_UNCONF), send_paced: true, recv_paced: false };
+    let report = Cell { name: "recv/Query<-Report:PageLoadInProgress on a port whose read blocks".into(), m1: RefMsg::Query(3), reply: RefMsg::Report(3, S_LOAD_PROG), send_paced: false, recv_paced: true };
+    for stall_ms in [10u64, 20, 45, 120] {
+        let stall = Duration::from_millis(stall_ms);
+        for _ in 0..trials.clamp(2, 6) {
+            rep.case(Some(fnv(format!("stall{}", stall_ms).as_bytes())));
+            rep.count("stalled_port_trials");
+            match measure_stalled(&chunk.m1, &chunk.reply, Some(stall), None) {
+                Ok(g) => {
+                    if g.send_gap < SEND_PACE {
+                        violation(rep, "data_chunk_not_paced_on_slow_port", &chunk, format!("the port's write took {} ms; the next message's write began {:.3} ms after the chunk's write had finished (< 30 ms)", stall_ms, ms(g.send_gap)));
+                    }
+                }
+                Err(e) => rep.note(&format!("measure_error/stall/{}", stall_ms), J::s(e)),
+            }
+            match measure_stalled(&report.m1, &report.reply, None, Some(stall)) {
+                Ok(g) => {
+                    let gap = g.recv_gap.unwrap_or(Duration::ZERO);
+                    if gap < RECV_PACE {
+                        violation(rep, "in_progress_report_not_paced_on_slow_port", &report, format!("the port's read took {} ms; process_message returned {:.3} ms after the report had been read (< 100 ms)", stall_ms, ms(gap)));
+                    }
+                }
+                Err(e) => rep.note(&format!("measure_error/stall/{}", stall_ms), J::s(e)),
+            }
+        }
+    }
+}
+
 /// "Not delayed": the MINIMUM over repeated trials must stay below the smaller pacing value.
 fn unpaced_trials(cell: &Cell, rep: &mut Report) {
     let mut min_send = Duration::MAX;
@@ -390,6 +440,7 @@ pub fn run(ctx: &Ctx) -> Outcome {
     // phase 2: everything single-threaded for the "not delayed" direction
     let mut rep2 = Report::new();
     flush_fault_trials(trials, &mut rep2);
+    stalled_trials(trials, &mut rep2);
     for c in &all {
         unpaced_trials(c, &mut rep2);
         rep2.sample_always(J::obj(vec![("cell", J::s(c.name.clone())), ("message", J::s(c.m1.show())), ("reply", J::s(c.reply.show()))]));
@@ -422,6 +473,7 @@ pub fn run(ctx: &Ctx) -> Outcome {
         floor("paced receive trials (8 request kinds x 2 in-progress states x own/foreign)", report.get("paced_recv_trials") >= 32 * trials as u64, report.get("paced_recv_trials")),
         floor("data chunk followed by a failing flush (3 error kinds)", report.get("flush_fault_trials") >= 9, report.get("flush_fault_trials")),
         floor("sessions: paced chunks, paced replies and unpaced pairs all observed mid-session", report.get("session_paced_chunks") >= 50 && report.get("session_paced_replies") >= 20 && report.get("session_pairs_judged") >= 10, format!("{} chunks, {} replies, {} pairs", report.get("session_paced_chunks"), report.get("session_paced_replies"), report.get("session_pairs_judged"))),
+        floor("paced exchanges on ports whose write / read blocks for 10, 20, 45 and 120 ms", report.get("stalled_port_trials") >= 8, report.get("stalled_port_trials")),
         floor("every unpaced cell measured", report.get("unpaced_send_cells") == n_send_unpaced, report.get("unpaced_send_cells")),
         floor("no measurement errors", !report.notes.keys().any(|k| k.starts_with("measure_error/")), "see notes"),
     ];
